@@ -1,11 +1,53 @@
 /-
-  SymmModel.Model.Reshape — `calc_reshape_args` and `AbelianArray.reshape`.
-  (placeholder until the planner model lands)
+  SymmModel.Model.Reshape — autoray's `find_full_reshape` (autoray/lazy/core.py:1355) and
+  `AbelianArray.reshape` (symmray/abelian_core.py:2083).  The planner `calcReshapeArgs`
+  (`calc_reshape_args`) is in `Model/ReshapePlan.lean`.
 -/
 import SymmModel.Model.Fermi
+import SymmModel.Model.ReshapePlan
 namespace SymmModel
 
-def reshapeArr {R : Type} [Zero R] [Neg R] (_a : Arr R) (_newshape : List Int) : Except Err (Arr R) :=
-  throw Err.notimpl
+/-- autoray's `find_full_reshape(newshape, size)`: the first `-1` is replaced by
+    `size // prod(others)` (Python floor division; `ZeroDivisionError` → `Err.other`) -/
+def findFullReshape (newshape : List Int) (size : Nat) : Except Err (List Int) :=
+  match indexOf? newshape (-1) with
+  | none => pure newshape
+  | some expand =>
+    let before := newshape.take expand
+    let after := newshape.drop (expand + 1)
+    let p := (before ++ after).foldl (· * ·) 1
+    if p == 0 then throw Err.other
+    else pure (before ++ [Int.fdiv (size : Int) p] ++ after)
+
+/-- `subsizes` as computed by `AbelianArray.reshape` -/
+def Arr.subsizes {R : Type} (a : Arr R) : List (Option (List Nat)) :=
+  a.indices.map (fun ix => ix.sub.map (fun s => s.1.map Index.sizeTotal))
+
+/-- `x.unfuse(ax)` with Python's method resolution -/
+def unfuseDispatch {R : Type} [Zero R] [Neg R] (x : Arr R) (ax : Nat) : Except Err (Arr R) :=
+  if x.fermi then x.unfuseF ax else unfuseA x ax
+
+/-- `x.fuse(*grouping)` with Python's method resolution (mode "auto" is "insert" on numpy) -/
+def fuseDispatch {R : Type} [Zero R] [Neg R] (x : Arr R) (grouping : List (List Nat)) : Except Err (Arr R) :=
+  if x.fermi then x.fuseF grouping else fuseA x grouping
+
+/-- `x.expand_dims(ax)`; an axis beyond `ndim` raises `IndexError` (`x.indices[axis - 1]`) -/
+def expandDispatch {R : Type} (x : Arr R) (ax : Nat) : Except Err (Arr R) :=
+  if ax > x.ndim then throw Err.index else pure (x.expandDims ax none none)
+
+/-- the three loops at the end of `AbelianArray.reshape` -/
+def applyPlan {R : Type} [Zero R] [Neg R] (a : Arr R)
+    (plan : List Nat × List (List (List Nat)) × List Nat) : Except Err (Arr R) := do
+  let x ← plan.1.foldlM unfuseDispatch a
+  let x ← plan.2.1.foldlM fuseDispatch x
+  plan.2.2.foldlM expandDispatch x
+
+/-- `AbelianArray.reshape(newshape)`.  Entries of `newshape` that are still negative after
+    `find_full_reshape` are outside the modelled domain (`Err.notimpl`). -/
+def reshapeArr {R : Type} [Zero R] [Neg R] (a : Arr R) (newshape : List Int) : Except Err (Arr R) := do
+  let full ← findFullReshape newshape a.size
+  let ns ← full.mapM (fun (d : Int) => if d < 0 then (throw Err.notimpl : Except Err Nat) else pure d.toNat)
+  let plan ← calcReshapeArgs a.shape ns a.subsizes
+  applyPlan a plan
 
 end SymmModel
